@@ -303,7 +303,17 @@ fn edit_source(rng: &mut Rng, p: &Project, a: &Analysis) -> Option<Op> {
     let eol = crate::spec::line_ending(&data);
     let mut lines: Vec<String> = crate::spec::split_lines(&data).iter().map(|x| x.to_string()).collect();
     let newline = format!("edited line {}", rng.below(100000));
-    if lines.is_empty() || rng.chance(1, 2) {
+    let temp_body: Vec<usize> = lines
+        .iter()
+        .enumerate()
+        .filter(|(_, l)| l.contains("temp body"))
+        .map(|(i, _)| i)
+        .collect();
+    if !temp_body.is_empty() && rng.chance(1, 2) {
+        // change the body of a temp directive (keeps the directive grouping intact)
+        let i = *rng.pick(&temp_body);
+        lines[i] = lines[i].replace("temp body", &format!("temp body edited {}", rng.below(1000)));
+    } else if lines.is_empty() || rng.chance(1, 2) {
         // append at the end (cannot disturb directive grouping except as continuation guard)
         lines.push("~".into());
         lines.push(newline);
@@ -408,7 +418,16 @@ pub fn gen(prop: &str, seed: u64, index: u64, _tier: Tier) -> Case {
                 });
                 variant = "tamper-boundary-sized".into();
             } else {
-            match rng.below(9) {
+            match rng.below(10) {
+                9 => {
+                    // a temp file changed by hand: verify regenerates it, outputs are still fresh
+                    let temps: Vec<String> = req.iter().flat_map(|i| a.sources[*i].temps.clone()).collect();
+                    if !temps.is_empty() {
+                        let path = rng.pick(&temps).clone();
+                        ops.push(tamper_op(&mut rng, &path));
+                        variant = "tamper-temp".into();
+                    }
+                }
                 8 => {
                     if let Some(op) = error_edit_op(&mut rng, &project, &a) {
                         ops.push(op);
